@@ -474,6 +474,9 @@ class ParserText(ParserBase):
                 # dateutil completes a missing year, month or day from the default, that is from the current date
                 raise ValueError(text)
             date_time.utcoffset()  # dateutil accepts '+9900', datetime raises ValueError for offsets >= 24 hours
+            if (date_time if date_time.tzinfo is None else date_time.astimezone(dateutil.tz.UTC)).year < 100:
+                # reachable only by layouts like YYYYMMDD; in the composed form dateutil reads such a year as two-digit
+                raise ValueError(text)
         except (ValueError, ArithmeticError) as e:
             six.raise_from(InvalidValue(value, type(self), 'value'), e)
 
